@@ -159,6 +159,17 @@ CLAIMED = {
              'real library with an instrumented source; seeded random pipelines recorded from the library are judged row by row by TLC.',
         design='4/C17',
         technique='TLA+ spec + TLC (invariants, action property, leads-to), replay into glom with pull counting, TLC validation of recorded pull/emit executions'),
+    'C13': dict(
+        text='GlomRegistry transcribes register / register_op / _register_fuzzy_type / _get_closest_type / get_handler / Glommer '
+             'construction as a machine (per registry: ordered type map, ordered nested type tree, memo, auto map) and states separately '
+             'the nearest-registered-type law (exact beats ancestors; a function of the set of registrations, hence order- and '
+             'history-independent), memo coherence (a register takes effect for the next lookup), isolation of registries and the '
+             'fresh-Glommer law; TLC explores all registration orders with interleaved lookups over seven class families x three '
+             'registries and rejects eight spec mutants including the historic first-match DFS; every behaviour is replayed on real '
+             'classes through glom() / Assign / Delete / Glommer with type-tagged handlers and the projected registry state compared '
+             '(drift 0); random histories on random class hierarchies are validated by TLC.',
+        design='4/C13',
+        technique='TLA+ machine spec + TLC exploration of registration/lookup histories, replay into glom, TLC trace validation, spec mutants'),
 }
 
 PENDING_REASON = 'check not built yet (planned: see DESIGN.md section 4); not claimed until both binding directions exist'
